@@ -1127,10 +1127,10 @@ class VM:
             return UNDEFINED
 
         if isinstance(obj, str):
-            # String character access
+            # String character access: only canonical index keys ("1", not "01")
             try:
                 idx = int(key_str)
-                if 0 <= idx < len(obj):
+                if 0 <= idx < len(obj) and str(idx) == key_str:
                     return obj[idx]
             except ValueError:
                 pass
